@@ -427,7 +427,13 @@ fn upgrade_open_crashes(seed: u64, thorough: bool, shard: Shard, cov: &mut Cov, 
             }
         }
         let clients: Vec<Uuid> = exp.clients.iter().map(|c| c.id).collect();
-        let ids: Vec<Uuid> = exp.clients.iter().flat_map(|c| c.versions.iter().flat_map(|v| [v.vid, v.parent])).collect();
+        let mut ids: Vec<Uuid> = vec![];
+        for c in &exp.clients {
+            for v in &c.versions {
+                ids.push(v.vid);
+                ids.push(v.parent);
+            }
+        }
         // the logical content as the pinned writer left it (read from a copy)
         let s0 = {
             let c = ScratchDir::new("c04pin0");
